@@ -26,7 +26,7 @@ def cases(tier, seed):
 def requirements(tier):
     return {"min_counters": {"servers_checked": 300 if tier == "quick" else 4000, "storages_checked": 300, "ledger_hours_compared": 5000,
                              "fixed_just_enough": 40, "fixed_one_short_raised": 40, "deletion_free_models": 80, "deleting_models": 30,
-                             "capacity_exceeded_raised": 10, "live_fixed_enough": 30, "live_fixed_short_raised": 30},
+                             "capacity_exceeded_raised": 10, "live_fixed_enough": 30, "live_fixed_short_raised": 30, "live_sizing_edits": 300},
             "required_classes": ["srv_autoscaling", "srv_on-premise", "srv_serverless", "windows_disjoint", "windows_overlapping",
                                  "windows_equal", "zero_tail", "short_storage_duration", "deleter"]}
 
@@ -306,6 +306,54 @@ def run_case(case):
                 C["live_fixed_short_raised"] = C.get("live_fixed_short_raised", 0) + 1
             else:
                 V.append({"kind": f"live assignment of a fixed instance count: unexpected {k}", "object": n, "need": need, "fixed": fx[1]})
+    # fourth phase: live edits of sizing inputs on the computed model (the ledger and the sizing relations must hold on what the
+    # incremental machinery produced, e.g. a base need edited twice must not be added twice)
+    if not V:
+        spec4 = copy.deepcopy(spec)
+        if "spec3" in dir() and False:
+            pass
+        from ..spec import val
+        live_fixed = None
+        for _ in range(3):
+            kinds = []
+            for n_, o_ in spec4["objects"].items():
+                if o_["cls"] == "Storage":
+                    kinds += [(n_, a) for a in ("base_storage_need", "base_storage_need", "storage_capacity", "data_replication_factor", "data_storage_duration")]
+                elif o_["cls"] == "Server":
+                    kinds += [(n_, a) for a in ("ram", "compute", "server_utilization_rate")]
+            if not kinds:
+                break
+            n_, a_ = rnd.choice(kinds)
+            old_ = spec4["objects"][n_]["params"][a_]
+            if a_ == "base_storage_need":
+                new_ = ["q", rnd.choice([1.5, 6.0, 8.0, old_[1] + 3.0]), "TB"]
+            elif a_ == "data_storage_duration":
+                new_ = ["q", rnd.choice([2, 5, 40]), "hour"]
+            elif a_ == "server_utilization_rate":
+                new_ = ["q", rnd.choice([0.8, 0.95, 1.0]), "dimensionless"]
+            else:
+                new_ = ["q", old_[1] * rnd.choice([1.37, 2.0, 3.0]), old_[2]]
+            try:
+                setattr(objs[n_], a_, val(new_))
+            except Exception as e:
+                k = classify_exception(e, deleting)
+                if k.startswith("UNEXPECTED"):
+                    V.append({"kind": f"live edit of a sizing input: {k}", "edit": [n_, a_, new_[1:]]})
+                continue
+            spec4["objects"][n_]["params"][a_] = new_
+            # the fixed count given in phase three (if accepted) is part of the live model
+            for m_, o_ in spec4["objects"].items():
+                fx_live = getattr(objs[m_], "fixed_nb_of_instances", None) if o_["cls"] in ("Storage", "Server") else None
+                if fx_live is not None and not isinstance(fx_live, E.EmptyExplainableObject):
+                    o_["params"]["fixed_nb_of_instances"] = ["q", float(fx_live.value.magnitude), "dimensionless"]
+            C["live_sizing_edits"] = C.get("live_sizing_edits", 0) + 1
+            V4 = []
+            check_servers(spec4, objs, V4, C); check_storages(spec4, objs, V4, C)
+            for v in V4:
+                v["after_live_edits"] = f"{n_}.{a_} = {new_[1:]}"
+            V.extend(V4)
+            if V:
+                break
     for v in V:
         v["model"] = {n: {k: x for k, x in o["params"].items() if x[0] != "h"} for n, o in spec["objects"].items()
                       if o["cls"] in ("Storage", "Server", "Job")}
